@@ -206,4 +206,43 @@ theorem parseDoc_serDoc (d : BDoc) (hw : WFDoc d) (hl : (serDoc d).length < 2 ^ 
   rw [e]
   exact parseDocF_serDoc_of d _ hl (parseElems_ser d _ hw (by omega))
 
+/-! ### non-metric leaves the parser accepts (`OtherOk` is satisfiable for every common type) -/
+
+/-- string / JavaScript / symbol values: int32 length (incl. the NUL), the bytes, NUL -/
+theorem otherOk_string (t : Nat) (ht : t = 0x02 ∨ t = 0x0D ∨ t = 0x0E) (str : Bytes)
+    (hl : str.length + 1 < 2 ^ 31) : OtherOk t (le32 (str.length + 1) ++ str ++ [0]) := by
+  refine ⟨by omega, ?_⟩
+  intro fuel rest
+  have hlp : lpString (le32 (str.length + 1) ++ str ++ [0] ++ rest) =
+      some (le32 (str.length + 1) ++ str ++ [0], rest) := by
+    unfold lpString
+    have e : le32 (str.length + 1) ++ str ++ [0] ++ rest = le32 (str.length + 1) ++ ((str ++ [0]) ++ rest) := by
+      simp
+    rw [e, takeN_app' _ _ 4 (le32_length _)]
+    simp only [rdLe_le32 _ (show str.length + 1 < 2 ^ 32 by omega)]
+    rw [if_neg (by omega), takeN_app' _ _ _ (by simp)]
+    simp
+  have hlp' : lpString (le32 (str.length + 1) ++ (str ++ 0 :: rest)) =
+      some (le32 (str.length + 1) ++ (str ++ [0]), rest) := by
+    have := hlp; simp only [List.append_assoc, List.singleton_append] at this; exact this
+  rcases ht with h | h | h <;> subst h <;> simp [parseVal, hlp']
+
+/-- null, undefined, min key, max key: no value bytes -/
+theorem otherOk_empty (t : Nat) (ht : t = 0x06 ∨ t = 0x0A ∨ t = 0xFF ∨ t = 0x7F) : OtherOk t [] := by
+  refine ⟨by omega, ?_⟩
+  intro fuel rest
+  rcases ht with h | h | h | h <;> subst h <;> simp [parseVal]
+
+/-- ObjectID: twelve bytes -/
+theorem otherOk_objectID (raw : Bytes) (hl : raw.length = 12) : OtherOk 0x07 raw := by
+  refine ⟨by omega, ?_⟩
+  intro fuel rest
+  simp [parseVal, takeN_app' raw rest 12 hl]
+
+/-- decimal128: sixteen bytes -/
+theorem otherOk_decimal (raw : Bytes) (hl : raw.length = 16) : OtherOk 0x13 raw := by
+  refine ⟨by omega, ?_⟩
+  intro fuel rest
+  simp [parseVal, takeN_app' raw rest 16 hl]
+
 end Ftdc
